@@ -104,6 +104,9 @@ CHECKS = {
  "C16": ("robust", "exploration", "hostile-input monitor in child processes (exit status / signal, caught panics, per-input run time against a huge bound) over six input families incl. depth bombs and run-time harvested seed queries",
          "Held on the generated inputs apart from the listed known finding: no child died by signal (stack overflow, allocation failure), no panic was caught and no call ran past max(20 x timeout, timeout + 20 s), on the main thread with an 8 MiB stack and RLIMIT_AS 16 GiB, against an uncompacted and a compacted graph.",
          "Errors are fine; inputs bounded to 4 MiB of text; dev-profile and sanitizer passes are thorough-tier extras.", "DESIGN.md §4.5 C16"),
+ "C11": ("cyphermon", "exploration", "reference-model monitor: grammar-generated well-typed read queries evaluated by the engine and by an independent reference evaluator on random graphs; multiset / key-sequence / sub-multiset comparison; disagreements re-run, shrunk and classified by imitating one recorded deviation at a time; sandwich oracle (Cypher rows <= engine rows <= rows without uniqueness) for the relationship-uniqueness family",
+         "Held on the generated queries apart from the listed known findings: rows equal the reference evaluator's for the fragment (patterns with labels, inline properties, types, three directions, variable length, OPTIONAL MATCH, WHERE with three-valued logic, WITH, UNWIND, DISTINCT, aggregation, ORDER BY, SKIP, LIMIT, UNION) on runs, compacted and reopened storage.",
+         "(src, type, dst) unique in generated graphs; engine-rejected queries are inconclusive; the main generator keeps bound variables at the start of patterns and variable-length hops alone in their pattern, the other shapes are exercised by the uniqueness family.", "DESIGN.md §4.4 C11"),
 }
 
 checks = []
